@@ -350,7 +350,7 @@ static void run_specific_trial(vf_rng_t *r)
  * and from an item of a queue that targets it (dispatch_get_specific); every replaced or removed
  * value gets its destructor once. */
 #define RS_THREADS 4
-typedef struct { dispatch_queue_t q; _Atomic int go, ready; _Atomic uint64_t dtors; void *final[RS_THREADS]; uint64_t set_calls[RS_THREADS]; int id_seq; } rs_t;
+typedef struct { dispatch_queue_t q; _Atomic int go, ready, readers_stop, reader_items_done; _Atomic uint64_t dtors; void *final[RS_THREADS]; uint64_t set_calls[RS_THREADS]; int id_seq; } rs_t;
 typedef struct { rs_t *rs; int id; vf_rng_t rng; } rs_thr_t;
 static char rs_keys[RS_THREADS];
 static _Atomic(rs_t *) rs_cur;
@@ -379,16 +379,36 @@ static void rs_check_item(void *ctx)
 		if (got != rs->final[k]) vf_violation("C18:get_specific:after-racing-first-setters:wrong-value", "dispatch_get_specific(key %d) from an item of a queue over the queue returned %p, the last value stored for that key is %p", k, got, rs->final[k]);
 	}
 }
+/* readers during the race: items of a queue over the queue look the keys up while the setters store, replace and
+ * remove; a lookup returns NULL or one of the values ever stored for that key, and walks no freed entry (ASan) */
+static void rs_reader_item(void *ctx)
+{
+	rs_t *rs = ctx;
+	for (int rep = 0; rep < 50 && !atomic_load(&rs->readers_stop); rep++) {
+		for (int k = 0; k < RS_THREADS; k++) {
+			uintptr_t got = (uintptr_t)dispatch_get_specific(&rs_keys[k]);
+			if (got && (got < 0x1000u * (uintptr_t)(k + 1) + 1 || got > 0x1000u * (uintptr_t)(k + 1) + 8))
+				vf_violation("C18:get_specific:during-racing-setters:value-of-another-key", "dispatch_get_specific(key %d) returned %#lx, which was never stored for that key", k, (unsigned long)got);
+		}
+	}
+	atomic_fetch_add(&rs->reader_items_done, 1);
+}
 static void run_racing_setters(vf_rng_t *r)
 {
 	rs_t *rs = calloc(1, sizeof(*rs));
 	atomic_store(&rs_cur, rs);
 	rs->q = dispatch_queue_create("vf.ident.racing-setters", vf_rnd_n(r, 2) ? DISPATCH_QUEUE_SERIAL : DISPATCH_QUEUE_CONCURRENT);
+	dispatch_queue_t rq = dispatch_queue_create_with_target("vf.ident.racing-setters.readers", DISPATCH_QUEUE_CONCURRENT, rs->q);
+	int nreaders = (int)vf_rnd_n(r, 3);
+	for (int i = 0; i < nreaders; i++) dispatch_async_f(rq, rs, rs_reader_item);
 	pthread_t th[RS_THREADS]; rs_thr_t h[RS_THREADS];
 	for (int i = 0; i < RS_THREADS; i++) { h[i].rs = rs; h[i].id = i; vf_rng_seed(&h[i].rng, vf_rnd(r), (uint64_t)i); pthread_create(&th[i], NULL, rs_main, &h[i]); }
 	while (atomic_load(&rs->ready) < RS_THREADS) sched_yield();
 	atomic_store(&rs->go, 1);
 	for (int i = 0; i < RS_THREADS; i++) pthread_join(th[i], NULL);
+	atomic_store(&rs->readers_stop, 1);
+	while (atomic_load(&rs->reader_items_done) < nreaders) sched_yield();
+	dispatch_release(rq);
 	uint64_t sets = 0;
 	for (int k = 0; k < RS_THREADS; k++) {
 		sets += rs->set_calls[k];
